@@ -1,7 +1,7 @@
 use crate::{write_rust, Modified};
 use hir::{Config, HirSpec, Record};
 use mir::{import, File, Ident, Import, Item};
-use mir_rust::{make_item, sanitize_filename, ToRustCode, ToRustIdent};
+use mir_rust::{make_enum_display, make_item, sanitize_filename, ToRustCode, ToRustIdent};
 use proc_macro2::TokenStream;
 use quote::quote;
 use std::collections::BTreeSet;
@@ -73,8 +73,12 @@ pub fn make_single_module(record: &Record, spec: &HirSpec, cfg: &Config) -> File
     if let Some(import) = check_imports(record, "super") {
         imports.push(import);
     }
+    let mut items = vec![make_item(record, spec, &cfg)];
+    if let Record::Enum(e) = record {
+        items.push(make_enum_display(e));
+    }
     File {
-        items: vec![make_item(record, spec, &cfg)],
+        items,
         imports,
         ..File::default()
     }
